@@ -162,7 +162,7 @@ def prepare(pid, ob=None, quiet=False):
         if not os.path.exists(audit) or open(audit).read() != content:
             open(audit, "w").write(content)
         t0 = time.time()
-        r = subprocess.run(["lake", "build", f"RexModel.Props.{pid}", "RexModel.Driver.All"], cwd=LEAN, capture_output=True, text=True)
+        r = subprocess.run(["lake", "build", f"RexModel.Props.{pid}", "rexdriver"], cwd=LEAN, capture_output=True, text=True)
         ob.build_s = time.time() - t0
         ob.build_log = (r.stdout + r.stderr)[-6000:]
         if r.returncode != 0:
@@ -217,7 +217,9 @@ class Driver:
         if not cmds:
             return []
         inp = "\n".join(json.dumps(c) for c in cmds) + "\n"
-        r = subprocess.run(["lake", "env", "lean", "--run", "Driver/Main.lean"], cwd=LEAN, input=inp, capture_output=True, text=True, timeout=timeout)
+        exe = os.path.join(LEAN, ".lake", "build", "bin", "rexdriver")
+        cmd = [exe] if os.path.exists(exe) and not os.environ.get("VERIF_INTERPRET_DRIVER") else ["lake", "env", "lean", "--run", "Driver/Main.lean"]
+        r = subprocess.run(cmd, cwd=LEAN, input=inp, capture_output=True, text=True, timeout=timeout)
         lines = [l for l in r.stdout.splitlines() if l.strip()]
         if r.returncode != 0 or len(lines) != len(cmds):
             raise RuntimeError(f"driver failed rc={r.returncode} lines={len(lines)}/{len(cmds)}: {r.stderr[-2000:]}")
